@@ -493,3 +493,74 @@ impl Names {
         format!("{}{}_{}{}", head, kind, tail, self.n)
     }
 }
+
+// ------------------------------------------------------------------------------------------
+// Meaning-preserving transformation: move runs of top-level nodes into argument-less macros
+
+/// Moves up to `max` contiguous runs of top-level nodes into macros without parameters that are
+/// called (once) where the run stood. The call always sits in the code segment (macro calls are
+/// instructions); the run itself may switch segments, start with `.org`, end with a segment switch.
+/// The program means the same: "a macro call behaves as its body".
+pub fn wrap_in_macros(nodes: &[Node], rng: &mut Rng, max: usize) -> Vec<Node> {
+    let mut out: Vec<Node> = nodes.to_vec();
+    let mut made = 0;
+    let mut tries = 0;
+    while made < max && tries < 12 {
+        tries += 1;
+        if out.len() < 4 {
+            break;
+        }
+        // segment in force before each index
+        let mut seg = Seg::Code;
+        let mut seg_before = Vec::with_capacity(out.len());
+        for n in &out {
+            seg_before.push(seg);
+            match n {
+                Node::Seg(s) => seg = *s,
+                // a call leaves the assembler in the segment its body ends in
+                Node::MacroCall { name, .. } => {
+                    for d in &out {
+                        if let Node::MacroDef { name: dn, body, .. } = d {
+                            if dn == name {
+                                if let Some(s) = body.iter().rev().find_map(|x| if let Node::Seg(s) = x { Some(*s) } else { None }) {
+                                    seg = s;
+                                }
+                            }
+                        }
+                    }
+                }
+                _ => {}
+            }
+        }
+        let a = 1 + rng.usize(out.len() - 1);
+        if seg_before[a] != Seg::Code {
+            continue;
+        }
+        let len = 1 + rng.usize((out.len() - a).min(8));
+        let b = a + len;
+        let run = &out[a..b];
+        // not movable: device selection (must stay first), existing macro machinery, compound nodes
+        if run.iter().any(|n| matches!(n, Node::Device(_) | Node::MacroDef { .. } | Node::MacroCall { .. } | Node::Cond { .. } | Node::Comment(_) | Node::Equ(..) | Node::Define(_))) {
+            continue;
+        }
+        // the run must hand back the segment it was given (code): a body that ends in another segment than
+        // its call started in is a separate matter (known finding macro/state/*, probed in C09)
+        if let Some(s) = run.iter().rev().find_map(|x| if let Node::Seg(s) = x { Some(*s) } else { None }) {
+            if s != Seg::Code {
+                continue;
+            }
+        }
+        made += 1;
+        let name = format!("wrap_mac_{}", made);
+        let body: Vec<Node> = out.drain(a..b).collect();
+        out.insert(a, Node::MacroCall { name: name.clone(), args: vec![] });
+        // definition before or after the call
+        let def = Node::MacroDef { name, body, end_long: rng.chance(1, 2) };
+        if rng.chance(1, 2) {
+            out.insert(1, def);
+        } else {
+            out.push(def);
+        }
+    }
+    out
+}
